@@ -109,6 +109,11 @@ pub struct Slot {
     pub decided_side: Option<usize>, // 0 = client side decided first, 1 = server side
     /// at decision time the peer had the session and nothing older was in flight towards it (nothing can overtake the disconnect)
     pub decision_clean: bool,
+    /// client-to-server datagrams emitted in this epoch / newest emission number handed to the server so far
+    pub emitted_n: u64,
+    pub newest_handed: u64,
+    /// a fresh session datagram of this client sits unread in the server's socket
+    pub fresh_waiting: bool,
 }
 
 pub struct WorldC {
@@ -122,6 +127,8 @@ pub struct WorldC {
     pub sv_ms: u64,
     pub slots: Vec<Slot>,
     pub ledger: Vec<(Vec<u8>, SocketAddr, SocketAddr)>, // bytes, from, to
+    /// per ledger entry: (slot, epoch, emission number within the epoch, sent by a netcode-connected client, times handed over)
+    pub meta: Vec<(Option<usize>, u32, u64, bool, u32)>,
     pub ev_connected: BTreeMap<u64, bool>,
     pub submit_n: u64,
     pub timeout_s: u64,
@@ -210,6 +217,9 @@ impl WorldC {
                 lost_after_decision: [false, false],
                 decided_side: None,
                 decision_clean: false,
+                emitted_n: 0,
+                newest_handed: 0,
+                fresh_waiting: false,
             })
             .collect();
         let mut w = WorldC {
@@ -223,6 +233,7 @@ impl WorldC {
             sv_ms: T0_SECS * 1000,
             slots,
             ledger: Vec::new(),
+            meta: Vec::new(),
             ev_connected: BTreeMap::new(),
             submit_n: 0,
             // unsecure clients make their own token: 15 s timeout, 300 s expiry
@@ -286,6 +297,9 @@ impl WorldC {
         s.lost_after_decision = [false, false];
         s.decided_side = None;
         s.decision_clean = false;
+        s.emitted_n = 0;
+        s.newest_handed = 0;
+        s.fresh_waiting = false;
     }
 
     pub fn slot_of_addr(&self, a: SocketAddr) -> Option<usize> {
